@@ -23,6 +23,7 @@ import CaddyModel.C04.NoPanic
 import CaddyModel.C04.Witness
 import CaddyModel.C04.Clients
 import CaddyModel.C04.Places
+import CaddyModel.C04.Stuck
 import CaddyModel.C04.GenTie
 
 namespace CaddyModel.C04
@@ -563,6 +564,28 @@ theorem all_clients_finished_pool_empty (nk : Nat) (progs : List (List Op)) (sch
 example : let y := runSched 1 [[.lsp 0, .closeAll], [.lsp 0, .closeAll], [.lsp 0, .closeAll]] [0, 1, 2, 0, 1, 2]
     (y.clean, allFinished y.threads, y.g.pool 0, (y.g.ent 0).skipped, (y.g.ent 0).destructed) = (true, true, none, 1, 0) := by
   decide
+
+/-- **the executable model never gets stuck**: for all programs and schedules (no hypothesis) no thread is
+    ever at a program counter that does not fit its operation, and every label a thread issues is enabled
+    in the net — its token is at the place it is taken from, the entry is not write-locked when the thread
+    has checked that, and the reference a `Delete` gives back is one the thread holds, on an entry created
+    for the key it deletes.  The answer of `drv_C04` never contains `model-stuck`. -/
+theorem never_stuck (nk : Nat) (progs : List (List Op)) (sched : List Nat) :
+    (runSched nk progs sched).stuck = false :=
+  (sound_runSched nk progs sched).ns
+
+/-- **what a client remembers is stored under the key it remembers it for**: in a clean run a reference
+    `(k, e)` in a thread's `held` list means `pool k = some e` -/
+theorem client_reference_is_in_the_map_under_its_key (nk : Nat) (progs : List (List Op)) (sched : List Nat)
+    (hc : (runSched nk progs sched).clean = true) {th : Thread} (hth : th ∈ (runSched nk progs sched).threads)
+    {k e : Nat} (hx : (k, e) ∈ th.held) : (runSched nk progs sched).g.pool k = some e := by
+  have hk : ((runSched nk progs sched).g.ent e).key = k := (sound_runSched nk progs sched).hkey th hth (k, e) hx
+  have hm := (client_holds_live_value nk progs sched hc hth hx).2.1
+  rw [← hk]; exact pool_of_inPool hm
+
+-- non-vacuity: a contract-breaking run (not clean) is not stuck either
+example : let y := runSched 1 [[.ln 0 true], [.del 0, .del 0]] [0, 0, 1, 1, 1, 1]
+    (y.clean, y.stuck, y.g.pool 0) = (false, false, none) := by decide
 
 -- the log-writer client: config 0 opens writers 0 and 1, config 1 opens writer 0 and fails to open writer 1;
 -- after config 0 closed its logs (closeAll) config 1 still holds writer 0 alive; after both closed, nothing is left
